@@ -221,6 +221,21 @@ func (cd *codeStore) PropagateKMV(top int, save *int, reg *int, inc int) {
 	*reg = *reg + inc
 }
 
+// PropagateK is PropagateKMV without the MOVE case: the operand may become a constant, but it never aliases
+// the register of a local variable (which a multiple assignment may overwrite before the operand is used).
+func (cd *codeStore) PropagateK(top int, save *int, reg *int, inc int) {
+	lastinst := cd.Last()
+	if opGetArgA(lastinst) >= top && opGetOpCode(lastinst) == OP_LOADK {
+		if cindex := opGetArgBx(lastinst); cindex <= opMaxIndexRk {
+			cd.Pop()
+			*save = opRkAsk(cindex)
+			return
+		}
+	}
+	*save = *reg
+	*reg = *reg + inc
+}
+
 func (cd *codeStore) PropagateMV(top int, save *int, reg *int, inc int) {
 	lastinst := cd.Last()
 	if opGetArgA(lastinst) >= top {
@@ -714,7 +729,12 @@ func compileAssignStmtLeft(context *funcContext, stmt *ast.AssignStmt) (int, []*
 			acs = append(acs, &assigncontext{ec, 0, 0, false, false})
 		case *ast.AttrGetExpr:
 			ac := &assigncontext{&expcontext{ecTable, regNotDefined, 0}, 0, 0, false, false}
-			compileExprWithKMVPropagation(context, st.Object, &reg, &ac.ec.reg)
+			if len(stmt.Lhs) > 1 {
+				// another target may be the local holding the table: evaluate it into a register of its own
+				compileExprWithPropagation(context, st.Object, &reg, &ac.ec.reg, context.Code.PropagateK)
+			} else {
+				compileExprWithKMVPropagation(context, st.Object, &reg, &ac.ec.reg)
+			}
 			ac.keyrk = reg
 			reg += compileExpr(context, reg, st.Key, ecnone(0))
 			if _, ok := st.Key.(*ast.StringExpr); ok {
@@ -749,9 +769,7 @@ func compileAssignStmtRight(context *funcContext, stmt *ast.AssignStmt, reg int,
 			reg += reginc
 			for i := namesassigned; i < namesassigned+int(reginc); i++ {
 				acs[i].needmove = true
-				if acs[i].ec.ctype == ecTable {
-					acs[i].valuerk = regstart + (i - namesassigned)
-				}
+				acs[i].valuerk = regstart + (i - namesassigned)
 			}
 			namesassigned = lennames
 			continue
@@ -764,13 +782,19 @@ func compileAssignStmtRight(context *funcContext, stmt *ast.AssignStmt, reg int,
 		reginc := compileExpr(context, reg, expr, ec)
 		if ec.ctype == ecTable {
 			if _, ok := expr.(*ast.LogicalOpExpr); !ok {
-				context.Code.PropagateKMV(context.RegTop(), &ac.valuerk, &reg, reginc)
+				if lennames > 1 {
+					// another target may be the local holding the value
+					context.Code.PropagateK(context.RegTop(), &ac.valuerk, &reg, reginc)
+				} else {
+					context.Code.PropagateKMV(context.RegTop(), &ac.valuerk, &reg, reginc)
+				}
 			} else {
 				ac.valuerk = idx
 				reg += reginc
 			}
 		} else {
 			ac.needmove = reginc != 0
+			ac.valuerk = idx
 			reg += reginc
 		}
 		namesassigned += 1
@@ -793,31 +817,26 @@ func compileAssignStmt(context *funcContext, stmt *ast.AssignStmt) { // {{{
 	code := context.Code
 	lennames := len(stmt.Lhs)
 	reg, acs := compileAssignStmtLeft(context, stmt)
-	reg, acs = compileAssignStmtRight(context, stmt, reg, acs)
+	_, acs = compileAssignStmtRight(context, stmt, reg, acs)
 
+	// every target knows the register (or constant) holding its value: valuerk
 	for i := lennames - 1; i >= 0; i-- {
 		ex := stmt.Lhs[i]
 		switch acs[i].ec.ctype {
 		case ecLocal:
 			if acs[i].needmove {
-				code.AddABC(OP_MOVE, context.FindLocalVar(ex.(*ast.IdentExpr).Value), reg, 0, sline(ex))
-				reg -= 1
+				code.AddABC(OP_MOVE, context.FindLocalVar(ex.(*ast.IdentExpr).Value), acs[i].valuerk, 0, sline(ex))
 			}
 		case ecGlobal:
-			code.AddABx(OP_SETGLOBAL, reg, context.ConstIndex(LString(ex.(*ast.IdentExpr).Value)), sline(ex))
-			reg -= 1
+			code.AddABx(OP_SETGLOBAL, acs[i].valuerk, context.ConstIndex(LString(ex.(*ast.IdentExpr).Value)), sline(ex))
 		case ecUpvalue:
-			code.AddABC(OP_SETUPVAL, reg, context.Upvalues.RegisterUnique(ex.(*ast.IdentExpr).Value), 0, sline(ex))
-			reg -= 1
+			code.AddABC(OP_SETUPVAL, acs[i].valuerk, context.Upvalues.RegisterUnique(ex.(*ast.IdentExpr).Value), 0, sline(ex))
 		case ecTable:
 			opcode := OP_SETTABLE
 			if acs[i].keyks {
 				opcode = OP_SETTABLEKS
 			}
 			code.AddABC(opcode, acs[i].ec.reg, acs[i].keyrk, acs[i].valuerk, sline(ex))
-			if !opIsK(acs[i].valuerk) {
-				reg -= 1
-			}
 		}
 	}
 } // }}}
